@@ -397,8 +397,19 @@ def make_simulation(spec, tmp):
     if v == 'file':
         fd = os.path.join(tmp, 'simfiles')
         kw['file_dir'] = fd
+    gkw = {'gridding': spec.get('gridding', 'same')}
+    if gkw['gridding'] in ('input', 'dict'):
+        # user-given computational grids: another grid with the same number
+        # of cells; 'dict': one per source and frequency
+        g = model.grid
+        g2 = emg3d.TensorMesh([g.h[0]*1.1, g.h[1]*0.95, g.h[2]*1.05],
+                              origin=np.array(g.origin)*1.03)
+        gkw['gridding_opts'] = g2 if gkw['gridding'] == 'input' else {
+            s_: {f_: (g2, g)[(i + j) % 2]
+                 for j, f_ in enumerate(survey.frequencies)}
+            for i, s_ in enumerate(survey.sources)}
     sim = emg3d.Simulation(
-        survey, model, gridding='same', max_workers=1, verb=-1,
+        survey, model, max_workers=1, verb=-1, **gkw,
         tqdm_opts=False, receiver_interpolation='linear',
         name='zoo sim', info=None if v == 'plain' else f'variant {v}',
         solver_opts={'maxit': 2, 'verb': 0, 'plain': True}, **kw)
@@ -557,6 +568,11 @@ def zoo_specs(tier):
         for what in whats:
             out.append({'kind': 'simulation', 'variant': v, 'what': what,
                         'n': 4})
+    for gr in ('input', 'dict'):
+        for v, what in (('plain', 'plain'), ('computed', 'computed'),
+                        ('gradient', 'results')):
+            out.append({'kind': 'simulation', 'variant': v, 'what': what,
+                        'n': 4, 'gridding': gr})
     out.append({'kind': 'simulation', 'variant': 'computed',
                 'what': 'computed', 'n': 8, 'case': 'triaxial',
                 'mapping': 'LgConductivity'})
